@@ -4,8 +4,10 @@ set -e
 cd "$(dirname "$0")"
 export CARGO_NET_OFFLINE=true
 mkdir -p .build replays evidence
-[ -f translator/rs2lean.py ] && python3 translator/rs2lean.py /repo lean/GeoModel/Gen
+REPO="${GEO_REPO:-/repo}"
+python3 lib/regen.py
+if [ -f translator/rs2lean.py ]; then python3 translator/rs2lean.py "$REPO" lean/GeoModel/Gen; fi
 (cd lean && lake build GeoModel GeoProofs geodriver)
-cp /repo/Cargo.lock harness/Cargo.lock
+cp "$REPO/Cargo.lock" harness/Cargo.lock
 (cd harness && cargo build --release --offline)
 echo setup-ok
